@@ -20,15 +20,18 @@
 EXTENDS Naturals, Sequences, FiniteSets, TLC, Json
 
 CONSTANTS MaxTasks, MaxNest, MaxSteps,
-          Endings     \* subset of {"plain", "tryexc", "tryfin", "condret"}
+          Endings,    \* subset of {"plain", "tryexc", "tryfin", "condret"}
+          Portals     \* TRUE: tasks may call greenback.ensure_portal(); from then on they wait for commands in a
+                      \* SYNCHRONOUS function through greenback.await_ (their async frames, nursery blocks included,
+                      \* then sit on a suspended greenlet's stack).  The expected tree does not depend on it.
 
-VARIABLES nurs, where, nextN, acts, steps
-vars == <<nurs, where, nextN, acts, steps>>
+VARIABLES nurs, where, nextN, gb, acts, steps
+vars == <<nurs, where, nextN, gb, acts, steps>>
 Tasks == 1..MaxTasks
 
 Init == /\ nurs = [t \in Tasks |-> <<>>]
         /\ where = [t \in Tasks |-> IF t = 1 THEN "body" ELSE "none"]
-        /\ nextN = 1 /\ acts = <<>> /\ steps = 0
+        /\ nextN = 1 /\ gb = [t \in Tasks |-> FALSE] /\ acts = <<>> /\ steps = 0
 
 Tick(a) == steps < MaxSteps /\ steps' = steps + 1 /\ acts' = Append(acts, a)
 Last(s) == s[Len(s)]
@@ -39,7 +42,7 @@ Act(a, t, x, e) == [a |-> a, t |-> t, x |-> x, e |-> e]
 Open(t, e) ==
   /\ where[t] = "body" /\ Len(nurs[t]) < MaxNest
   /\ nurs' = [nurs EXCEPT ![t] = Append(@, [id |-> nextN, ending |-> e, kids |-> <<>>])]
-  /\ nextN' = nextN + 1 /\ UNCHANGED where
+  /\ nextN' = nextN + 1 /\ UNCHANGED <<where, gb>>
   /\ Tick(Act("open", t, nextN, e))
 
 (* task t starts child c in its innermost nursery *)
@@ -47,7 +50,7 @@ Spawn(t, c) ==
   /\ where[t] = "body" /\ nurs[t] # <<>> /\ where[c] = "none"
   /\ \A c2 \in Tasks : where[c2] = "none" => c <= c2            \* ids in creation order
   /\ nurs' = [nurs EXCEPT ![t] = [@ EXCEPT ![Len(@)] = [@ EXCEPT !.kids = Append(@, c)]]]
-  /\ where' = [where EXCEPT ![c] = "body"] /\ UNCHANGED nextN
+  /\ where' = [where EXCEPT ![c] = "body"] /\ UNCHANGED <<nextN, gb>>
   /\ Tick(Act("spawn", t, c, "-"))
 
 (* task t leaves the body of its innermost nursery: blocks in __aexit__ while children live, else the nursery closes *)
@@ -56,7 +59,7 @@ Leave(t) ==
   /\ IF Last(nurs[t]).kids # <<>>
      THEN where' = [where EXCEPT ![t] = "aexit"] /\ UNCHANGED nurs
      ELSE nurs' = [nurs EXCEPT ![t] = Front(@)] /\ UNCHANGED where
-  /\ UNCHANGED nextN
+  /\ UNCHANGED <<nextN, gb>>
   /\ Tick(Act("leave", t, 0, "-"))
 
 (* a task without open nurseries finishes; its parent's nursery forgets it; a parent blocked in that nursery's
@@ -69,25 +72,31 @@ Finish(c) ==
          unblocked == where[p] = "aexit" /\ Last(ns).kids = <<>>
      IN /\ nurs' = [nurs EXCEPT ![p] = IF unblocked THEN Front(ns) ELSE ns]
         /\ where' = [where EXCEPT ![c] = "dead", ![p] = IF unblocked THEN "body" ELSE @]
-  /\ UNCHANGED nextN
+  /\ UNCHANGED <<nextN, gb>>
   /\ Tick(Act("finish", c, 0, "-"))
+
+(* task t installs a greenback portal and from now on waits for commands through the await_ bridge *)
+Ensure(t) ==
+  /\ Portals /\ where[t] = "body" /\ ~gb[t]
+  /\ gb' = [gb EXCEPT ![t] = TRUE] /\ UNCHANGED <<nurs, where, nextN>>
+  /\ Tick(Act("ensure", t, 0, "-"))
 
 \* the expected extraction: the tree below the root
 RECURSIVE TreeOf(_, _)
-TreeOf(t, fuel) == [task |-> t, where |-> where[t],
+TreeOf(t, fuel) == [task |-> t, where |-> where[t], gb |-> gb[t],
                     nurseries |-> [i \in 1..Len(nurs[t]) |->
                         [id |-> nurs[t][i].id, ending |-> nurs[t][i].ending,
                          kids |-> IF fuel = 0 THEN <<>> ELSE [j \in 1..Len(nurs[t][i].kids) |-> TreeOf(nurs[t][i].kids[j], fuel - 1)]]]]
 
 (* extract(root, recurse_child_tasks=True) -- a stuttering step of the tree *)
-Observe == /\ UNCHANGED <<nurs, where, nextN>>
+Observe == /\ UNCHANGED <<nurs, where, nextN, gb>>
            /\ Tick([a |-> "observe", t |-> 1, x |-> 0, e |-> "-", tree |-> TreeOf(1, MaxTasks)])
 
-Next == \/ \E t \in Tasks : (\E e \in Endings : Open(t, e)) \/ (\E c \in Tasks : Spawn(t, c)) \/ Leave(t) \/ Finish(t)
+Next == \/ \E t \in Tasks : (\E e \in Endings : Open(t, e)) \/ (\E c \in Tasks : Spawn(t, c)) \/ Leave(t) \/ Finish(t) \/ Ensure(t)
         \/ Observe
 Spec == Init /\ [][Next]_vars
 \* export variant: alternate a structural action with an observation
-NextAlt == \/ (steps % 2 = 0 /\ \E t \in Tasks : (\E e \in Endings : Open(t, e)) \/ (\E c \in Tasks : Spawn(t, c)) \/ Leave(t) \/ Finish(t))
+NextAlt == \/ (steps % 2 = 0 /\ \E t \in Tasks : (\E e \in Endings : Open(t, e)) \/ (\E c \in Tasks : Spawn(t, c)) \/ Leave(t) \/ Finish(t) \/ Ensure(t))
            \/ (steps % 2 = 1 /\ Observe)
 SpecAlt == Init /\ [][NextAlt]_vars
 
@@ -100,7 +109,7 @@ TreeShape == /\ \A c \in Tasks : (Live(c) /\ c # 1) =>
              /\ \A t \in Tasks : (nurs[t] # <<>>) => Live(t)
 \* only the innermost nursery can be the one being exited
 AexitHasKids == \A t \in Tasks : where[t] = "aexit" => (nurs[t] # <<>> /\ Last(nurs[t]).kids # <<>>)
-View == <<nurs, where>>
+View == <<nurs, where, gb>>
 
 \* to_thread / from_thread ping-pong of depth d: the stack of the task continues through the worker thread's frames and
 \* back into the Trio task serving it:  t(d) s(d) t(d-1) ... s(1) t(0)
